@@ -24,7 +24,7 @@ Why(ob, D) ==
                   ELSE "")
        ELSE IF "ANY" \in SeqSet(want) THEN
             (IF ty.t \in {"null", "absent"} \/ (ty.t = "bool" /\ ty.b) THEN "" ELSE "type-check-where-any-value-is-allowed")
-       ELSE IF ty.t = "absent" THEN ""                                   \* no check at all never rejects
+       ELSE IF ty.t \in {"absent", "null"} THEN ""                       \* no check at all (`type: null` or no `type`) never rejects
        ELSE LET got == TypeNames(ty) IN
             IF SeqSet(want) \ SeqSet(got) # {} THEN "rejects-inhabitant:" \o (CHOOSE x \in SeqSet(want) \ SeqSet(got) : TRUE)
             ELSE IF SeqSet(got) \ SeqSet(want) # {} THEN "accepts-foreign-constructor:" \o (CHOOSE x \in SeqSet(got) \ SeqSet(want) : TRUE)
